@@ -16,8 +16,5 @@ def run(ctx, rep):
     rep.analysed['configs'] = cfgs
     rep.trusted += ['rustc nightly MIR construction', 'engines/mirfacts']
     rep.assumptions += ['user callbacks are pure functions of the matched text (the property\'s quantifier)']
-    try:
-        from props import gen
-        gen.rules_c13(ctx, rep)
-    except ImportError:
-        pass
+    from props import gen
+    gen.rules_c13(ctx, rep)
